@@ -427,6 +427,13 @@ func c18Pre(c *Ctx, scope []*ssa.Function) {
 					c.Notes = append(c.Notes, "exempt B-PRE|"+fname(f)+"|"+construct+": "+why)
 					continue
 				}
+				// the same invariant wherever the constructor call sits: the IV is the value pbeCipherFor returned
+				if ex, isEx := cc.Args[1].(*ssa.Extract); isEx {
+					if src, isCall := ex.Tuple.(*ssa.Call); isCall && calleeNamed(src, "pbeCipherFor") {
+						c.Notes = append(c.Notes, "exempt B-PRE|"+fname(f)+"|"+construct+": "+exemptIV["pkcs12.pbDecrypterFor"])
+						continue
+					}
+				}
 				if !has {
 					c.Undecided("B-PRE", fname(f), construct, "function has no error/bool result", call.Pos())
 					continue
